@@ -9,6 +9,7 @@ Decided on the match of PlusZConstraint::run and TimesZConstraint::run (structur
    division; with a zero divisor nothing is bound: product 0 keeps the constraint, otherwise fail;
  d every binding is followed by run_constraints on that state (the arm's value);
  e under-determined arms re-add the constraint itself.
+ (round 5, shared with C04) every escaping binding is followed by a re-run of the store.
 """
 import streams
 import sym
@@ -307,6 +308,11 @@ def run(ctx, fb, cfg):
     import C22
 
     C02.check_normalize(ctx, lib, R + "K6.normalize")
+    # "checked once its operands become ground": every binding that escapes is followed by a re-run of the store,
+    # whichever variable of an alias class it mentions (rule shared with C04)
+    import C04
+
+    C04.check_rerun(ctx, lib, R + "K2.rerun-after-binding")
     C22.check_store(ctx, lib, R + "K1K6.no-silent-removal")
     if any(p.startswith("crate::relation::clpfd") for p in lib.fns):
         fdrules.check_registry(ctx, lib, R + "K11.registry")
